@@ -2,6 +2,8 @@
 import z3
 from .values import *
 
+MAXLEN = 1 << 48      # no Go object exceeds the address space (runtime maxAlloc on 64-bit hosts)
+
 class Unsupported(Exception):
     pass
 
@@ -197,11 +199,11 @@ class Layout:
             if w:
                 out.append(z3.And(v >= (-(1 << (w - 1)) if s else 0), v <= ((1 << (w - 1)) - 1 if s else (1 << w) - 1)))
         elif isinstance(v, StrV):
-            out += [v.off >= 0, v.len >= 0]
+            out += [v.off >= 0, v.len >= 0, v.len <= MAXLEN, v.off <= MAXLEN]
             kq = fresh('k!wf')
             out.append(z3.ForAll([kq], z3.And(z3.Select(v.arr, kq) >= 0, z3.Select(v.arr, kq) <= 255)))
         elif isinstance(v, SliceV):
-            out += [v.off >= 0, v.len >= 0, v.len <= v.cap, z3.Implies(v.isnil, v.cap == 0)]
+            out += [v.off >= 0, v.len >= 0, v.len <= v.cap, v.cap <= MAXLEN, v.off <= MAXLEN, z3.Implies(v.isnil, v.cap == 0)]
             ei = self.tt.intinfo(v.etid)
             if ei and self.mode != 'bv' and ei[0]:
                 w, s = ei
